@@ -5,6 +5,11 @@ package quic_test
 // fault schedule, position-dependent payload oracle at the API boundary, H1 pool poisoning on.
 
 import (
+	"time"
+	"testing/synctest"
+	"io"
+	"context"
+	"bytes"
 	"errors"
 	"fmt"
 	"testing"
@@ -112,4 +117,153 @@ func TestVerifC01FaultsRace(t *testing.T) {
 	clients := []quicworld.ClientSel{{Client: "plain"}, {Client: "plain", V2: true}, {Client: "Chrome_115_IPv4"}, {Client: "Firefox_116A"}}
 	cases := quicworld.FaultSuite(l, clients, nil, 0, l.Pick(150, 1500), l.Pick(100, 1000), l.Pick(100, 1000))
 	quicworld.RunSuite(t, l, cases, c01Report(l))
+}
+
+// "When the path is not dead for longer than the idle timeout, transfers on all streams complete" - also when
+// the dead period comes right after a quiet period: both endpoints are silent for Q, then one side starts
+// to write while everything sent towards it is lost for B.  Q + B may exceed the idle timeout T, B stays below
+// 45 % of it: the writer's idle period restarted when it sent its first ack-eliciting packet after the silence
+// (RFC 9000 10.1), so the connection must survive and the transfer must complete.
+func TestVerifC01Blackout(t *testing.T) {
+	l := evlog.Open("C01")
+	defer l.Close()
+	type bc struct {
+		Name   string `json:"name"`
+		Client string `json:"client"`
+		Writer string `json:"writer"` // client | server
+		TMs    int    `json:"idle_ms"`
+		QMs    int    `json:"quiet_ms"`
+		BMs    int    `json:"blackout_ms"`
+		KB     int    `json:"kb"`
+	}
+	var cases []bc
+	rng := l.Rand("c01blackout")
+	for i := 0; i < l.Pick(300, 6000); i++ {
+		T := []int{3000, 10000, 30000}[rng.IntN(3)]
+		c := bc{Client: []string{"plain", "unil", "Chrome_115_IPv4", "Firefox_116A"}[rng.IntN(4)], Writer: []string{"client", "server"}[rng.IntN(2)], TMs: T,
+			QMs: T * (35 + rng.IntN(55)) / 100, KB: []int{1, 20, 200}[rng.IntN(3)]}
+		// the writer probes with exponential back-off (PTO, 2 PTO, 4 PTO ...): the first probe after a blackout of
+		// B leaves before 2 B + PTO, so B is kept below 45 % of T - then a probe gets through, and is answered,
+		// before the idle period that began with the writer's first packet ends
+		c.BMs = T * (15 + rng.IntN(30)) / 100
+		c.Name = fmt.Sprintf("%04d/%s/%s/T%d-Q%d-B%d/%dk", i, c.Client, c.Writer, c.TMs, c.QMs, c.BMs, c.KB)
+		cases = append(cases, c)
+	}
+	for i, cs := range cases {
+		if !l.Mine(i) {
+			continue
+		}
+		c := l.Begin("C01/blackout/"+cs.Name, cs)
+		if c == nil {
+			continue
+		}
+		synctest.Test(t, func(t *testing.T) {
+			opt, err := quicworld.OptionsFor(&quicworld.ConnCase{Client: cs.Client, RTTms: 10})
+			if err != nil {
+				c.Violation("C01|harness", err.Error(), nil)
+				return
+			}
+			idle := time.Duration(cs.TMs) * time.Millisecond
+			opt.ClientConf.MaxIdleTimeout, opt.ServerConf.MaxIdleTimeout = idle, idle
+			w, err := quicworld.New(opt)
+			if err != nil {
+				c.Violation("C01|harness", err.Error(), nil)
+				return
+			}
+			defer func() {
+				w.Close()
+				time.Sleep(time.Minute)
+			}()
+			ctx, cancel := context.WithTimeout(context.Background(), 10*time.Minute)
+			defer cancel()
+			type acc struct {
+				c   *quic.Conn
+				err error
+			}
+			accCh := make(chan acc, 1)
+			go func() {
+				sc, err := w.Accept(ctx)
+				accCh <- acc{sc, err}
+			}()
+			cc, err := w.Dial(ctx)
+			a := <-accCh
+			if err != nil || a.err != nil {
+				c.Violation("C01|blackout|handshake-failed", fmt.Sprintf("dial %v accept %v", err, a.err), nil)
+				return
+			}
+			sc := a.c
+			defer func() {
+				cc.CloseWithError(0, "")
+				sc.CloseWithError(0, "")
+			}()
+			writer, reader, toWriter := cc, sc, wiretap.S2C
+			if cs.Writer == "server" {
+				writer, reader, toWriter = sc, cc, wiretap.C2S
+			}
+			// the idle timeout the two really negotiated: a fingerprint advertises its own
+			neg := idle
+			if taps := w.Wire.Snapshot(); len(taps) > 0 {
+				w.Wire.Lock()
+				for _, tp := range []*wiretap.TPSet{taps[len(taps)-1].ClientTP, taps[len(taps)-1].ServerTP} {
+					if tp != nil {
+						if v := time.Duration(tp.Int(wiretap.TPMaxIdleTimeout, 0)) * time.Millisecond; v > 0 && v < neg {
+							neg = v
+						}
+					}
+				}
+				w.Wire.Unlock()
+			}
+			q, b := neg*time.Duration(cs.QMs)/time.Duration(cs.TMs), neg*time.Duration(cs.BMs)/time.Duration(cs.TMs)
+			time.Sleep(500 * time.Millisecond) // handshake done, tickets, connection IDs
+			if q > 600*time.Millisecond {
+				time.Sleep(q - 500*time.Millisecond) // the quiet period counts from the last packets of the handshake
+			}
+			if cc.Context().Err() != nil || sc.Context().Err() != nil {
+				c.Violation("C01|blackout|died-in-quiet-period", fmt.Sprintf("quiet for %s with idle timeout %s: client %v server %v", q, neg, context.Cause(cc.Context()), context.Cause(sc.Context())), nil)
+				return
+			}
+			payload := make([]byte, cs.KB<<10)
+			for i := range payload {
+				payload[i] = byte(i*13 + 5)
+			}
+			w.Router.SetBlackhole(toWriter, true)
+			errc := make(chan error, 2)
+			go func() {
+				s, err := writer.OpenUniStreamSync(ctx)
+				if err != nil {
+					errc <- fmt.Errorf("open: %w", err)
+					return
+				}
+				if _, err := s.Write(payload); err != nil {
+					errc <- fmt.Errorf("write: %w", err)
+					return
+				}
+				errc <- s.Close()
+			}()
+			go func() {
+				s, err := reader.AcceptUniStream(ctx)
+				if err != nil {
+					errc <- fmt.Errorf("accept: %w", err)
+					return
+				}
+				got, err := io.ReadAll(s)
+				if err == nil && !bytes.Equal(got, payload) {
+					err = fmt.Errorf("%d bytes read, %d written, or different content", len(got), len(payload))
+				}
+				errc <- err
+			}()
+			time.Sleep(b)
+			w.Router.SetBlackhole(toWriter, false)
+			c.Eval(fmt.Sprintf("%s|%s|T%d|kb%d|q%d|b%d", cs.Client, cs.Writer, cs.TMs, cs.KB, cs.QMs*10/cs.TMs, cs.BMs*10/cs.TMs))
+			for i := 0; i < 2; i++ {
+				if err := <-errc; err != nil {
+					c.Violation("C01|blackout|transfer-failed-although-path-dead-shorter-than-idle-timeout",
+						fmt.Sprintf("quiet %s, then %d kB written by the %s while nothing reached it for %s (idle timeout %s): %v; writer's connection: %v", q, cs.KB, cs.Writer, b, neg, err, context.Cause(writer.Context())), nil)
+					return
+				}
+			}
+			l.Count("blackout_transfers_completed", 1)
+		})
+		c.End()
+	}
 }
